@@ -1,0 +1,20 @@
+// +build verif
+
+// Verification hooks (build tag "verif" only; not part of normal builds).
+
+package fs
+
+// VerifUnescape exposes unescape to the verification harness.
+func VerifUnescape(s string) string {
+	return unescape(s)
+}
+
+// VerifMountList returns the parsed mount table in mountinfo order.
+func (m Mounts) VerifMountList() []MountType {
+	return m.mount_list
+}
+
+// VerifStDevRoot exposes the unexported fields of a mount entry.
+func (mt MountType) VerifStDevRoot() (string, string) {
+	return mt.st_dev, mt.root
+}
